@@ -261,7 +261,7 @@ def all_trees(tier: str, rng: random.Random):  # noqa: ANN201
             for kinds in itertools.product(("ascope", "sscope"), repeat=n):
                 for places in itertools.product(("inline", "spawn", "plain"), repeat=n - 1):
                     cbs = [("sync", "async")[(i + len(parents)) % 2] for i in range(n)]
-                    if n == 3:
+                    if n == 3 and (len(places) + sum(map(len, kinds))) % 2 == 0:
                         # only some scopes have a callback (the usual shape: the outermost one), and a cyclic garbage collection runs after
                         # every block exit
                         yield {"parents": parents, "kinds": list(kinds), "places": ["root", *places], "callbacks": ["sync", "none", "none"], "gc": True}
@@ -280,7 +280,7 @@ def all_trees(tier: str, rng: random.Random):  # noqa: ANN201
         n = rng.choice([3, 4, 4, 5])
         parents = rng.choice(list(trees(n)))
         yield {"parents": parents, "kinds": [rng.choice(["ascope", "sscope"]) for _ in range(n)], "places": ["root"] + [rng.choice(["inline", "spawn", "plain", "plain"]) for _ in range(n - 1)],
-               "callbacks": [rng.choice(["sync", "async", "sync-raise", "async-raise", "sync", "async-object", "async-partial", "async-method", "sync-falsy-object", "none", "none"]) for _ in range(n)], "gc": rng.random() < 0.25, "fails": [rng.random() < 0.25 for _ in range(n)],
+               "callbacks": [rng.choice(["sync", "async", "sync-raise", "async-raise", "sync", "async-object", "async-partial", "async-method", "sync-falsy-object", "none", "none"]) for _ in range(n)], "gc": rng.random() < 0.06, "fails": [rng.random() < 0.25 for _ in range(n)],
                "traces": [rng.choice([None, None, "shared", f"own-{i}"]) for i in range(n)]}
 
 
